@@ -24,7 +24,7 @@ RULE = ("simulations as for C15 (2-5 bandits of any combination, 20-200 rows, al
         "data sets with an arm present only in the first or last row (absent from train or test under an ordered split); "
         "non-trivial = an arm missing from the training or test split, or a batch size that does not divide |test|; "
         "distinct = (rows, test size, ordered, batch size, is_quick, feature)")
-BUDGET = {"quick": {"cases": 96, "shards": 8}, "thorough": {"cases": 3000, "shards": 16, "wall_s": 2700}}
+BUDGET = {"quick": {"cases": 288, "shards": 16}, "thorough": {"cases": 6000, "shards": 16, "wall_s": 3600}}
 MIN = {"quick": {"evaluations": 1500, "nontrivial": 30}, "thorough": {"evaluations": 50000, "nontrivial": 900}}
 ASSUMPTIONS = ["int / str arm labels (sklearn's confusion_matrix, used by the Simulator, rejects float class labels)",
                "neighbourhood statistics are taken from the public attribute bandit_to_arm_to_stats_neighborhoods",
@@ -138,8 +138,11 @@ def check_neighbourhood_records(ctx, label, cfg, nbhd, sizes, arms, spec, tr, ti
         seen = list(tr) + (list(ti[:(j // bs) * bs]) if bs > 0 else [])
         hist = [X[i] for i in seen]
         if cfg["np"]["kind"] == "radius":
-            rad = Fraction(cfg["np"]["radius"])
-            key = rad * rad if metric == "euclidean" else rad
+            if cfg["np"].get("radius_key") is not None:
+                key = Fraction(cfg["np"]["radius_key"])  # radius placed exactly on a row-to-row distance: its exact integer key
+            else:
+                rad = Fraction(cfg["np"]["radius"])
+                key = rad * rad if metric == "euclidean" else rad
             idx = nhood.radius_rows(metric, hist, X[row_index], key)
         else:
             cands, tie = nhood.knn_completions(metric, hist, X[row_index], cfg["np"]["k"])
